@@ -21,7 +21,7 @@ For each change also write a DEMONSTRATION: a Go test (or small program) that FA
 
 Environment facts (important):
 - No network. Before every go command: export GOFLAGS=-mod=mod GOPROXY=off GOSUMDB=off GOTOOLCHAIN=local; unset GOWORK
-- go.mod in your worktree already has an extra `replace` line for a patched qtls module (needed so that binaries importing the root package can run under this Go version). It is hidden from git diff. Do not remove it, do not include go.mod in your patches.
+- go.mod in your worktree already has an extra `replace` line for a patched qtls module (needed so that binaries importing the root package can run under this Go version). It is hidden from git diff. Do not remove it, do not include go.mod in your patches. NEVER use `git stash` (the stash is shared by all worktrees of the repository and other agents work in sibling worktrees) and never `git checkout -- .` / `git reset --hard` on the whole tree (they wipe the hidden go.mod line): to get back to the unchanged code use `git apply -R <your patch>` or `git checkout -- <the files you edited>`. If go.mod ever loses the replace line, re-append: replace github.com/marten-seemann/qtls-go1-15 => /opt/qtls-patched
 - `go build ./...` fails on examples/ (several main packages per dir) - that is expected, ignore examples/. Check compilation with: go build . ./socket/... ./codec/... ./utils/... ./xfer/... ./proto/... ./plugin/... ./mixer/websocket/... && go vet . 2>/dev/null; true
 - The existing tests that must still pass with your change: go test -count=1 ./codec ./mixer/websocket/websocket ./socket ./utils ./xfer/gzip   . Additionally the other package tests (root package, plugin/*, proto/*, mixer/websocket) should not be newly broken by your change; they bind fixed TCP ports (e.g. 9090), so run them one package at a time (go test -p 1) and tolerate 'address already in use' failures that also happen without your change.
 - For your own demos use TCP ports in the range {port}-{int(port)+40} on 127.0.0.1 only (other agents use other ranges). PeerConfig has ListenPort / LocalIP etc; see README.md and the *_test.go files for how to start a server peer (erpc.NewPeer(erpc.PeerConfig{{ListenPort: ...}}); go srv.ListenAndServe()) and a client peer (cli.Dial(":port")).
